@@ -13,9 +13,9 @@ base/Tree.vos base/Tree.vok base/Tree.required_vos: base/Tree.v
 base/Types.vo base/Types.glob base/Types.v.beautified base/Types.required_vo: base/Types.v 
 base/Types.vio: base/Types.v 
 base/Types.vos base/Types.vok base/Types.required_vos: base/Types.v 
-extract/Api.vo extract/Api.glob extract/Api.v.beautified extract/Api.required_vo: extract/Api.v model/Score.vo
-extract/Api.vio: extract/Api.v model/Score.vio
-extract/Api.vos extract/Api.vok extract/Api.required_vos: extract/Api.v model/Score.vos
+extract/Api.vo extract/Api.glob extract/Api.v.beautified extract/Api.required_vo: extract/Api.v gen/T_zobrist.vo base/Bits.vo base/Types.vo base/BitBoard.vo geom/Geometry.vo geom/GenFns.vo geom/Lookup.vo model/Score.vo model/Abi.vo model/Text.vo model/Tracing.vo
+extract/Api.vio: extract/Api.v gen/T_zobrist.vio base/Bits.vio base/Types.vio base/BitBoard.vio geom/Geometry.vio geom/GenFns.vio geom/Lookup.vio model/Score.vio model/Abi.vio model/Text.vio model/Tracing.vio
+extract/Api.vos extract/Api.vok extract/Api.required_vos: extract/Api.v gen/T_zobrist.vos base/Bits.vos base/Types.vos base/BitBoard.vos geom/Geometry.vos geom/GenFns.vos geom/Lookup.vos model/Score.vos model/Abi.vos model/Text.vos model/Tracing.vos
 extract/Extract.vo extract/Extract.glob extract/Extract.v.beautified extract/Extract.required_vo: extract/Extract.v extract/Api.vo
 extract/Extract.vio: extract/Extract.v extract/Api.vio
 extract/Extract.vos extract/Extract.vok extract/Extract.required_vos: extract/Extract.v extract/Api.vos
@@ -64,6 +64,9 @@ geom/Lookup.vos geom/Lookup.vok geom/Lookup.required_vos: geom/Lookup.v base/Bit
 geom/Magic.vo geom/Magic.glob geom/Magic.v.beautified geom/Magic.required_vo: geom/Magic.v base/Bits.vo base/Types.vo base/Tree.vo geom/Geometry.vo geom/Lookup.vo gen/T_rook_moves.vo gen/T_bishop_moves.vo
 geom/Magic.vio: geom/Magic.v base/Bits.vio base/Types.vio base/Tree.vio geom/Geometry.vio geom/Lookup.vio gen/T_rook_moves.vio gen/T_bishop_moves.vio
 geom/Magic.vos geom/Magic.vok geom/Magic.required_vos: geom/Magic.v base/Bits.vos base/Types.vos base/Tree.vos geom/Geometry.vos geom/Lookup.vos gen/T_rook_moves.vos gen/T_bishop_moves.vos
+model/Abi.vo model/Abi.glob model/Abi.v.beautified model/Abi.required_vo: model/Abi.v model/Score.vo
+model/Abi.vio: model/Abi.v model/Score.vio
+model/Abi.vos model/Abi.vok model/Abi.required_vos: model/Abi.v model/Score.vos
 model/Score.vo model/Score.glob model/Score.v.beautified model/Score.required_vo: model/Score.v 
 model/Score.vio: model/Score.v 
 model/Score.vos model/Score.vok model/Score.required_vos: model/Score.v 
@@ -73,6 +76,9 @@ model/Text.vos model/Text.vok model/Text.required_vos: model/Text.v
 model/Tracing.vo model/Tracing.glob model/Tracing.v.beautified model/Tracing.required_vo: model/Tracing.v 
 model/Tracing.vio: model/Tracing.v 
 model/Tracing.vos model/Tracing.vok model/Tracing.required_vos: model/Tracing.v 
+proofs/AbiFacts.vo proofs/AbiFacts.glob proofs/AbiFacts.v.beautified proofs/AbiFacts.required_vo: proofs/AbiFacts.v model/Score.vo model/Abi.vo
+proofs/AbiFacts.vio: proofs/AbiFacts.v model/Score.vio model/Abi.vio
+proofs/AbiFacts.vos proofs/AbiFacts.vok proofs/AbiFacts.required_vos: proofs/AbiFacts.v model/Score.vos model/Abi.vos
 proofs/BitBoardFacts.vo proofs/BitBoardFacts.glob proofs/BitBoardFacts.v.beautified proofs/BitBoardFacts.required_vo: proofs/BitBoardFacts.v base/Bits.vo base/BitBoard.vo proofs/BitsFacts.vo
 proofs/BitBoardFacts.vio: proofs/BitBoardFacts.v base/Bits.vio base/BitBoard.vio proofs/BitsFacts.vio
 proofs/BitBoardFacts.vos proofs/BitBoardFacts.vok proofs/BitBoardFacts.required_vos: proofs/BitBoardFacts.v base/Bits.vos base/BitBoard.vos proofs/BitsFacts.vos
@@ -103,6 +109,9 @@ props/C09.vos props/C09.vok props/C09.required_vos: props/C09.v base/Bits.vos ba
 props/C14.vo props/C14.glob props/C14.v.beautified props/C14.required_vo: props/C14.v model/Score.vo proofs/ScoreOrder.vo
 props/C14.vio: props/C14.v model/Score.vio proofs/ScoreOrder.vio
 props/C14.vos props/C14.vok props/C14.required_vos: props/C14.v model/Score.vos proofs/ScoreOrder.vos
+props/C16.vo props/C16.glob props/C16.v.beautified props/C16.required_vo: props/C16.v model/Score.vo model/Abi.vo proofs/AbiFacts.vo
+props/C16.vio: props/C16.v model/Score.vio model/Abi.vio proofs/AbiFacts.vio
+props/C16.vos props/C16.vok props/C16.required_vos: props/C16.v model/Score.vos model/Abi.vos proofs/AbiFacts.vos
 props/C18.vo props/C18.glob props/C18.v.beautified props/C18.required_vo: props/C18.v base/Bits.vo base/BitBoard.vo proofs/BitsFacts.vo proofs/BitBoardFacts.vo
 props/C18.vio: props/C18.v base/Bits.vio base/BitBoard.vio proofs/BitsFacts.vio proofs/BitBoardFacts.vio
 props/C18.vos props/C18.vok props/C18.required_vos: props/C18.v base/Bits.vos base/BitBoard.vos proofs/BitsFacts.vos proofs/BitBoardFacts.vos
